@@ -328,7 +328,7 @@ func (s *Server) referrerAdd(repo store.Repo, subject digest.Digest, desc types.
 		return err
 	}
 	dig := digest.Canonical.FromBytes(iRaw)
-	bc, _, err := repo.BlobCreate(store.BlobWithDigest(dig))
+	bc, _, err := repo.BlobCreate(store.BlobWithDigest(dig), store.BlobInternal())
 	if err != nil && !errors.Is(err, types.ErrBlobExists) {
 		return err
 	}
@@ -402,7 +402,7 @@ func (s *Server) referrerDelete(repo store.Repo, subject digest.Digest, desc typ
 		return err
 	}
 	dig := digest.Canonical.FromBytes(refRespRaw)
-	bc, _, err := repo.BlobCreate(store.BlobWithDigest(dig))
+	bc, _, err := repo.BlobCreate(store.BlobWithDigest(dig), store.BlobInternal())
 	if err != nil && !errors.Is(err, types.ErrBlobExists) {
 		return err
 	}
